@@ -12,6 +12,7 @@ thread_local! {
     static SCLONES: RefCell<u32> = const { RefCell::new(0) };
     static SCLONE_ID: RefCell<u32> = const { RefCell::new(0) };
     static SSHALLOW: RefCell<bool> = const { RefCell::new(false) };
+    static SPANIC: RefCell<bool> = const { RefCell::new(false) };
 }
 
 #[repr(align(32))]
@@ -30,6 +31,9 @@ impl Drop for SNode {
 impl Clone for SNode {
     fn clone(&self) -> SNode {
         SCLONES.with(|c| *c.borrow_mut() += 1);
+        if SPANIC.with(|c| std::mem::replace(&mut *c.borrow_mut(), false)) {
+            std::panic::panic_any(0u8);
+        }
         let id = SCLONE_ID.with(|c| *c.borrow());
         if SSHALLOW.with(|c| *c.borrow()) {
             return SNode { id, strong: RefCell::new(Vec::new()), weak: RefCell::new(Vec::new()) };
@@ -288,13 +292,25 @@ impl SWorld {
                 let h = self.roots[ai].last_mut()?;
                 if Rc::get_mut(h).is_some() { "some" } else { "none" }.into()
             }
-            "MakeMut" | "MakeMutS" => {
+            "MakeMut" | "MakeMutS" | "MakeMutP" => {
                 SSHALLOW.with(|c| *c.borrow_mut() = op == "MakeMutS");
-                let mut h = self.roots[ai].pop()?;
-                let (sc, wc) = (Rc::strong_count(&h), Rc::weak_count(&h));
+                let (sc, wc) = {
+                    let h = self.roots[ai].last()?;
+                    (Rc::strong_count(h), Rc::weak_count(h))
+                };
                 let newid = self.vptr.len() as u32;
                 SCLONE_ID.with(|c| *c.borrow_mut() = newid);
                 let branch = if sc != 1 { "cloned" } else if wc != 0 { "moved" } else { "unique" };
+                if op == "MakeMutP" && branch == "cloned" {
+                    // Clone panics: the call unwinds, the handle stays where it is
+                    SPANIC.with(|c| *c.borrow_mut() = true);
+                    let p = self.roots[ai].last_mut()? as *mut Rc<SNode>;
+                    let r = std::panic::catch_unwind(std::panic::AssertUnwindSafe(|| unsafe {
+                        Rc::make_mut(&mut *p);
+                    }));
+                    return Some(if r.is_err() { "cpanic".into() } else { "no-panic".into() });
+                }
+                let mut h = self.roots[ai].pop()?;
                 Rc::make_mut(&mut h);
                 if branch == "unique" {
                     self.roots[ai].push(h);
